@@ -33,15 +33,6 @@ def roots(ctx):
             classes.append(prog.cls(n))
         except AnalysisError:
             pass
-    for ci in classes:
-        for c in ci.mro():
-            if isinstance(c, ClassInfo):
-                for n, m in c.methods.items():
-                    if ci.lookup(n)[1] is m and (not n.startswith("_") or n in ("__call__", "__init__")) and not n.startswith("with_"):
-                        k = (m.key, ci.key)
-                        if k not in seen:
-                            seen.add(k)
-                            out.append((m, ci, "public method"))
     for o, t, n, i in ctx.types.thread_targets:
         out.append((t, t.owner, "worker thread"))
     # library callbacks: methods / functions passed to add_done_callback, weakref callbacks, atexit hooks
@@ -54,8 +45,12 @@ def roots(ctx):
                 for e in p.calls():
                     if q.call_name(e) in ("add_done_callback", "register") and e.d["args"]:
                         cb = e.d["args"][0]
-                        while isinstance(cb, tuple) and cb[0] == "new" and cb in p.types:
-                            break
+                        if isinstance(cb, tuple) and cb[0] == "new":
+                            # a wrapper object around the real callback (WeakCallback(x)): unwrap its argument
+                            for c in p.calls():
+                                if c.d["func"] == ("class", cb[1]) and it.site(c.node) == cb[2] and c.d["args"]:
+                                    cb = c.d["args"][0]
+                                    break
                         if isinstance(cb, tuple) and cb[0] == "partial":
                             cb = cb[1]
                         if isinstance(cb, tuple) and cb[0] == "attr":
@@ -74,6 +69,15 @@ def roots(ctx):
                             if m is not None and k not in seen:
                                 seen.add(k)
                                 out.append((m, None, "done-callback"))
+    for ci in classes:
+        for c in ci.mro():
+            if isinstance(c, ClassInfo):
+                for n, m in c.methods.items():
+                    if ci.lookup(n)[1] is m and (not n.startswith("_") or n in ("__call__", "__init__")) and not n.startswith("with_"):
+                        k = (m.key, ci.key)
+                        if k not in seen:
+                            seen.add(k)
+                            out.append((m, ci, "public method"))
     for mod in prog.modules.values():
         if ".futures" in mod.name:
             for fi in mod.functions.values():
